@@ -60,7 +60,7 @@ pub fn prune(d: &Desc) -> Desc {
             s
         };
         let before = decls.len();
-        let keep_struct_roots: HashSet<&str> = ["P", "R"].into_iter().collect();
+        let keep_struct_roots: HashSet<&str> = ["P", "R", "W", "Q"].into_iter().collect();
         decls.retain(|x| used.contains(&x.id) || subject_ids.contains(&x.id) || (x.is_struct() && keep_struct_roots.contains(x.id.as_str())));
         if decls.len() == before {
             break;
